@@ -798,6 +798,61 @@ def check_self_delegation(run, ix):
                     run.ok('Q-R8', '%s: recursive call forwards %s' % (name, params[1:]))
 
 
+def check_constant_operands(run, ix):
+    """Q-R14 (fourth C35 hunt; repair 2a37a65).  The names of the base constants are spliced into the returned formula as
+    operands of * and /.  A name that is itself a formula (`e+1`, which the docstring allows for lists and for dicts)
+    must be parenthesised first -- identify(3/(e+1), {'e+1': e+1}) returned '3/e+1' -- and the internal check cannot see
+    it, because it substitutes the VALUES of dict names.  Decided: every comprehension in identify that builds the list
+    of (value, name) pairs passes the name through `_operand(...)`.  Q-R15 (repair 2e267a9): a pslq call inside the
+    transform loop whose vector contains a power of the transformed value stands in a try that catches ValueError (t**2
+    below pslq's fixed-point resolution raised out of identify for ordinary x above 150 bits)."""
+    f = ix.func(IDENT, 'identify')
+    n = 0
+    for a in _walk_own(f.node):
+        if not (isinstance(a, ast.Assign) and norm(a.targets[0]) == 'constants' and isinstance(a.value, ast.ListComp)):
+            continue
+        elt = a.value.elt
+        if not (isinstance(elt, ast.Tuple) and len(elt.elts) == 2):
+            continue
+        n += 1
+        nm = elt.elts[1]
+        if isinstance(nm, ast.Call) and norm(nm.func) == '_operand':
+            run.ok('Q-R14', 'names of the constants are made operands: `%s`' % norm(a, 70))
+        else:
+            run.fail(Finding('Q-R14', IDENT, f.qualname, norm(a),
+                             'the name of a constant goes into the formulas as it is: for a name that is a formula the '
+                             'returned string means something else (identify(3/(e+1), {\'e+1\': e+1}) returned \'3/e+1\' = 2.10 '
+                             'for x = 0.81), and the internal check substitutes the value of the name', line=a.lineno))
+    if n < 2:
+        raise AnalysisError('identify: the (value, name) lists of the constants were not found (%d)' % n)
+    m = 0
+    for c in _walk_own(f.node):
+        if not (isinstance(c, ast.Call) and norm(c.func).endswith('.pslq') and c.args and isinstance(c.args[0], ast.List)):
+            continue
+        if not any(isinstance(e, ast.BinOp) and isinstance(e.op, ast.Pow) for e in c.args[0].elts):
+            continue
+        m += 1
+        ok = False
+        p_ = c
+        while p_ is not f.node:
+            par = p_._parent
+            if isinstance(par, ast.Try) and any(p_ is b or any(p_ is y for y in ast.walk(b)) for b in par.body):
+                for h in par.handlers:
+                    names = [norm(x) for x in (h.type.elts if isinstance(h.type, ast.Tuple) else [h.type])] if h.type is not None else ['BaseException']
+                    if set(names) & {'ValueError', 'Exception', 'BaseException'}:
+                        ok = True
+            p_ = par
+        if ok:
+            run.ok('Q-R15', '`%s` runs under a handler for ValueError' % norm(c, 50))
+        else:
+            run.fail(Finding('Q-R15', IDENT, f.qualname, norm(c),
+                             'pslq raises ValueError when an entry is zero in its fixed point, and the square of a transformed '
+                             'value t with tol <= t < 2^-((prec+60)/2) is: identify(mpf(\'80.123456789\')) at 50 digits raises '
+                             'instead of returning None or a formula', line=c.lineno))
+    if m < 1:
+        raise AnalysisError('identify: quadratic pslq attempt not found')
+
+
 def run(run, ix, tier):
     run.explanation = (
         'pslq, findpoly and identify promise properties of what they RETURN (bounded integer coefficients, '
@@ -834,3 +889,6 @@ def run(run, ix, tier):
     check_formula_verified(run, ix)
     check_findpoly_guard(run, ix)
     check_total_strings(run, ix)
+    run.rule('Q-R14', floor=2, desc='names of base constants are parenthesised before they are spliced into formulas')
+    run.rule('Q-R15', floor=1, desc='the quadratic pslq attempt of identify cannot raise out of it')
+    check_constant_operands(run, ix)
